@@ -127,6 +127,12 @@ func genC18(t *simrt.Tape, tier string) Scenario {
 		}
 	}
 	sc.Steps = append(sc.Steps, c18Step{Kind: "Request", Verb: verbs[t.Choose(len(verbs))]})
+	if t.Bool(1, 4) {
+		// one caller-owned *http.Request sent several times in a row through DoRequest: every send is a request
+		for k := 2 + t.Choose(2); k > 0; k-- {
+			sc.Steps = append(sc.Steps, c18Step{Kind: "Request", Verb: "DoRequestReused"})
+		}
+	}
 	if sc.Twin {
 		for i := range sc.Steps {
 			switch sc.Steps[i].Kind {
@@ -316,6 +322,7 @@ func (sc *c18Scenario) Run(s *simrt.Sim) {
 	type result struct {
 		err error
 	}
+	var reusedReq *http.Request
 	doReq := func(verb string) (*Op, error) {
 		var rerr error
 		op := h.Do("main", verb, nil, func() (interface{}, error) {
@@ -346,6 +353,12 @@ func (sc *c18Scenario) Run(s *simrt.Sim) {
 					rerr = ar.Err
 				}
 				return nil, nil
+			case "DoRequestReused":
+				if reusedReq == nil {
+					reusedReq, _ = http.NewRequest(http.MethodGet, url, nil)
+				}
+				reusedReq.Header = http.Header{} // (the caller starts every send from a clean header)
+				r = sh.DoRequest(reusedReq)
 			case "CtxCancelled", "CtxCancelledMidChain":
 				ctx, cancel := context.WithCancel(context.Background())
 				defer cancel()
